@@ -111,6 +111,14 @@ Reopen(c) ==
     /\ cap' = c
     /\ UNCHANGED <<boxes, used, arrival, limit>>
 
+(* The process is stopped and started again: what is on disk stays; the     *)
+(* only ids the store can still know to be taken are those of the messages *)
+(* it holds (generous reading of "ids are never reused" across restarts:   *)
+(* an id of a message removed before the restart may be issued again).     *)
+Restart ==
+    /\ used' = [m \in Mailbox |-> Ids(boxes, m)]
+    /\ UNCHANGED <<boxes, arrival, cap, limit>>
+
 (* Retention scan: remove every message for which Expired(meta) holds.     *)
 Scan(Expired(_)) ==
     /\ boxes' = [m \in Mailbox |-> SelectSeq(boxes[m], LAMBDA x : ~Expired(x.meta))]
